@@ -16,8 +16,12 @@ def harnesses(tier):
             scenario_harness("flat-window-outcomes", Profile(
                 templates=("F3",), window="always", raises="free", crit_job="free", perm="two", top="pure"),
                 o, required_notes=req),
-            scenario_harness("flat4-window-nodeps", Profile(
-                templates=("F4",), window="always", edges="none", perm="id", top="pure"), o, required_notes=req),
+            scenario_harness("flat4-window-nodeps-raises", Profile(
+                templates=("F4",), window="always", edges="none", perm="id", top="pure", raises="free",
+                crit_job=False), o, required_notes=req),
+            scenario_harness("flat3-window-forever", Profile(
+                templates=("F3",), window="always", forever="free", perm="id", top="pure", crit_job=False),
+                o, required_notes=req),
             scenario_harness("nested-windows-timeout", Profile(
                 templates=("N12",), window="always", timeout="free", timeout_scope="top", lat="free",
                 perm="id"), o, required_notes=req),
